@@ -244,10 +244,60 @@ def describe(step_spec, op):
     return d
 
 
+KNOWN_COLLISION = ('key=eth-revision-collision an ETH UpgradeClient proposal re-installed an already stored block under another revision '
+                   'number (consistent content); the shared ethRootMain entry was deleted when the first consensus state was pruned and a '
+                   'later valid update of the Active client is refused (header index missing)')
+
+
+def hash32(hx):
+    """common.BytesToHash on a hex string"""
+    return hx[-64:] if len(hx) > 64 else hx.rjust(64, '0')
+
+
+def store_of(obs, name):
+    for st in obs['stores']:
+        if st['name'] == name:
+            return st['entries']
+    return []
+
+
+def is_revision_collision(r, s):
+    """the SPECIFIC signature of KNOWN_FINDINGS eth-revision-collision for the refused update at step s of case r:
+    (1) the refused step is an update with an ETH header of an ETH client;
+    (2) earlier, with no create / toggle for the chain name in between, an ETH upgrade succeeded whose header has the
+        revision HEIGHT and the state root of a consensus state stored at that moment under ANOTHER revision number;
+    (3) when the update is refused, a stored ETH consensus state has no ethRootMain entry (root as 32-byte hash, height)."""
+    op = r['steps'][s - 1]['op']
+    if op['k'] != 'update' or op['hdr'].get('et') != 'eth':
+        return False
+    name = op.get('name')
+    obs_before = [r['init']] + [st['obs'] for st in r['steps']]
+    collided = False
+    for j in range(1, s):
+        o, ob = r['steps'][j - 1]['op'], r['steps'][j - 1]['obs']
+        if ob['class'] != 0 or o.get('name') != name:
+            continue
+        if o['k'] in ('create', 'toggle'):
+            collided = False
+        elif o['k'] == 'upgrade' and o['client']['t'] == 'eth':
+            rev, n = o['client']['hdr']['h']
+            root = hash32(o['client']['hdr']['root'])
+            for e in store_of(obs_before[j - 1], name):
+                if e['k'] == 'cons' and e['cons']['t'] == 'eth' and e['h'][1] == n and e['h'][0] != rev and hash32(e['cons']['root']) == root:
+                    collided = True
+    if not collided:
+        return False
+    pre = store_of(obs_before[s - 1], name)
+    mains = {(hash32(e['hash']), e['n']) for e in pre if e['k'] == 'rootmain'}
+    return any(e['k'] == 'cons' and e['cons']['t'] == 'eth' and (hash32(e['cons']['root']), e['h'][1]) not in mains for e in pre)
+
+
 def finding_key(kind, results, h, s):
     """signature of a monitor failure (the specific failing input) for KNOWN_FINDINGS.txt"""
     r = results[h]
     op = r['steps'][s - 1]['op']
+    if kind == 20 and is_revision_collision(r, s):
+        return 'eth-revision-collision'
     types_before = []
     for st in r['steps'][:s - 1]:
         if st['op']['k'] in ('create', 'toggle', 'upgrade') and st['obs']['class'] == 0 and st['op'].get('name') == op.get('name'):
@@ -362,7 +412,8 @@ def check(run):
              'when it is not a clock step; distinct = distinct (operation with client/consensus/header types, client type before, '
              'result class, rejecting stage)',
         distribution=dict(dist), generator_tags=tags, toggle_pairs=sorted('%s->%s' % t for t in toggles),
-        model_mismatches=len(mm), monitor_failures=len(ff),
+        model_mismatches=len(mm), monitor_failures=len(ff),  # includes the failures attributed to a listed KNOWN finding (known_findings_met)
+       
         traces_validated_against_impl=len(results) - len({h for h, _, _ in mm}),
         samples=[r['spec'] for r in results if r['spec'].get('tag') == 'corpus:back-tm->tss->tm'][:1] + ([results[-1]['spec']] if results else [])))
     run.coverage['trusted_base'] += [
@@ -380,22 +431,40 @@ def check(run):
         'ETH forks (RestrictChain) are outside this model (C10); a fork case is reported as mismatch kind 9, never accepted silently']
 
     reported = set()
+    known_hits = []
     for h, s, k in ff:  # the property failed on the real code
         if h in reported:
             continue
-        reported.add(h)
         key = finding_key(k, results, h, s)
         what = '%s (key=%s, case tag %s, step %d: %s)' % (KINDS.get(k), key, results[h]['spec'].get('tag'), s, describe(None, results[h]['steps'][s - 1]['op']))
-        if run.known_finding(key, what):
-            continue
         spec = dict(results[h]['spec'])
         spec['steps'] = spec['steps'][:s]
-        small = shrink(run.work, spec, k, 'monitor')
+        small = None
+        if key == 'eth-revision-collision':
+            # an unfixed, listed finding: the MINIMISED history has to show the same specific signature (the directed
+            # corpus case is minimal already); anything else stays a violation
+            tag = str(results[h]['spec'].get('tag'))
+            if tag.startswith('corpus:') or tag.startswith('sweep:'):
+                confirmed = True
+            else:
+                small = shrink(run.work, spec, k, 'monitor')
+                rs = run_specs(run.work, [small], 'known')
+                confirmed = False
+                if rs:
+                    _, ff2 = evaluate(run.work, rs, 'known_cases')
+                    confirmed = any(k2 == 20 and is_revision_collision(rs[0], s2) for _, s2, k2 in (ff2 or []))
+            if confirmed and run.known_finding(key, KNOWN_COLLISION):
+                known_hits.append(dict(case=results[h]['spec'].get('tag'), step=s))
+                continue  # a later, different failure of the same history is still looked at
+        reported.add(h)
+        if small is None:
+            small = shrink(run.work, spec, k, 'monitor')
         run.violation(dict(kind='monitor', code=k, what=KINDS.get(k), key=key, spec=small, failing_step=s,
                            op=results[h]['steps'][s - 1]['op'], observed_class=results[h]['steps'][s - 1]['obs']['class'],
                            observed_error=results[h]['steps'][s - 1]['obs'].get('err')), name='replay_h%d.json' % h)
         if len(run.violations) >= 3:
             break
+    run.coverage['known_findings_met'] = known_hits
     if not run.violations:
         for h, s, k in mm[:1]:  # model and code disagree, property monitor silent
             if s == 0:
